@@ -241,6 +241,29 @@ def oracle(c, stats):
         raise Violation("path-vs-file", "Atoms.save by path / by file object differs from save_lmpdat")
     check_reload(spec, bp, style, "Atoms.load(path)")
     check_reload(spec, bf, style, "Atoms.load(file)")
+    # history on one object: edit public attributes of the object that has just been written (new type labels, as
+    # retyping does; another charge; another position; another coefficient row) and write it again
+    import copy as _copy
+    spec2 = _copy.deepcopy(spec)
+    spec2["type_labels"] = [l + "x" for l in spec["type_labels"]]
+    a.atom_type_labels = list(spec2["type_labels"])
+    if spec2["pos"]:
+        spec2["charges"][0] = round(spec2["charges"][0] + 0.5, 6)
+        a.charges[0] = spec2["charges"][0]
+        spec2["pos"][-1] = [spec2["pos"][-1][0] + 0.25, spec2["pos"][-1][1], spec2["pos"][-1][2]]
+        a.positions[-1] = spec2["pos"][-1]
+    for k in M.KINDS:
+        if spec2[k + "_coeffs"]:
+            spec2[k + "_coeffs"][-1] = spec2[k + "_coeffs"][-1].split("#")[0].strip() + " 7.5"
+            setattr(a, M.COEFF_ATTR[k], list(spec2[k + "_coeffs"]))
+    try:
+        t4 = save_text(a, style)
+    except Exception as e:
+        raise Violation("exception-in-save", "second write after editing the object: %s: %r" % (type(e).__name__, e))
+    try:
+        check_file(spec2, t4, style)
+    except Violation as v:
+        raise Violation("second-write-" + v.kind, "the object was edited after a first write and written again: " + v.detail)
     cell = spec["cell"]
     tilted = cell is not None and any(abs(cell[i][j]) > 0 for i, j in ((1, 0), (2, 0), (2, 1)))
     neg = any(x < 0 for p in spec["pos"] for x in p)
